@@ -354,7 +354,9 @@ def neighbours(ctx):
         if r_ == "sat":
             ctx.report_cex("id_in_table", model, replay(model))
             return
-    # ascending cell order: for consecutive present entries the rank strictly increases
+    if ctx.part.get("no_order"):
+        return
+    # ascending cell order: for any two present entries the later one has the larger rank
     ents = lst.entries
     rk = [(g, (rank(v[0], v[1], v[2], w, h) if ret is tuple else v)) for g, v in ents]
     viol = []
